@@ -567,6 +567,27 @@ class Gen:
     def program(self):
         return self.let(([], set()), self.rng.choice([2, 3, 3, 4]))
 
+    def closure_program(self):
+        """core forms only (lambda, set!, if, application): first-class closures, recursion through an assigned
+        variable, counters, closures capturing propagated constants — inside the second SPEC interpreter (Sem2)"""
+        r, k = self.rng, self.rng.randrange
+        ie = lambda names: self.intexpr((list(names), set(names)), 2)
+        t = r.randrange(6)
+        if t == 0:
+            return "((lambda (f) (out (f %s %s)) (f %s (+ 1 2))) (lambda (a b) %s))" % (self.intlit(), k(9), k(9), ie(["a", "b"]))
+        if t == 1:
+            return ("((lambda (loop n) (set! loop (lambda (i acc) (if (< i n) (loop (+ i 1) (%s acc i %d)) acc))) 'q1 n (out (loop 0 %s)) (loop 1 (+ 1 %d))) #f %d)"
+                    % (r.choice(["+", "*", "-"]), k(1, 5), self.intlit(), k(4), k(1, 7)))
+        if t == 2:
+            return "((lambda (n) ((lambda (inc) (inc) n (inc) (out n) (inc)) (lambda () (set! n (+ n %d)) n))) %d)" % (k(1, 9), k(9))
+        if t == 3:
+            return "((lambda (k) ((lambda (g) (+ (g 1) (g k))) (lambda (x) %s))) %d)" % (ie(["x", "k"]), k(1, 9))
+        if t == 4:
+            return ("((lambda (mk) ((lambda (a b) (out (a)) (out (b)) (+ (a) (b))) (mk %d) (mk (* 2 %d)))) (lambda (start) ((lambda (c) (lambda () (set! c (+ c 1)) c)) start)))"
+                    % (k(9), k(9)))
+        return ("((lambda (x y) ((lambda (f) (if (if #t (< x y) 0) (f (lambda (z) (+ z x %d)) y) (f (lambda (z) (* z y)) (+ 1 2)))) (lambda (h v) (out (h v)) (h (h v))))) %d %d)"
+                % (k(5), k(9), k(9)))
+
 
 class Names:
     def __init__(self):
@@ -696,8 +717,9 @@ def _simplify_part(ctx, exe, dirs):
     n = 500 if not ctx.thorough else 20000
     g = Gen(rng)
     progs = [g.program() for _ in range(n)]
-    g3 = Gen(rng, rich=True)          # with rest parameters: outside the SPEC interpreter, inside the model of the pass
+    g3 = Gen(rng, rich=True)          # with rest parameters: outside the SPEC interpreters, inside the model of the pass
     progs += [g3.program() for _ in range(n // 4)]
+    progs += [g.closure_program() for _ in range(n // 4)]      # closures / recursion: second SPEC interpreter (Sem2.eval2)
     # corpus: minimised past disagreements and hand-written boundary programs run first
     cdir = os.path.join(HERE, "..", "corpus", "C09")
     corpus = []
@@ -729,13 +751,19 @@ def _simplify_part(ctx, exe, dirs):
                 continue
             nms[i] = (nm, a, b)
             # the programs are analysed as (lambda () <program>); their meaning is that of calling the thunk
-            reqs += ["simplify " + " ".join(a), "run A 0 " + " ".join(a), "run A 0 " + " ".join(b), "wf " + " ".join(a)]
+            reqs += ["simplify " + " ".join(a), "run A 0 " + " ".join(a), "run A 0 " + " ".join(b), "wf " + " ".join(a),
+                     "run2 400 A 0 " + " ".join(a), "run2 400 A 0 " + " ".join(b)]
             idx.append(i)
     mo = ctx.run_model(exe, reqs)
-    sem = {}
+    sem, sem2_defined = {}, 0
     for k, i in enumerate(idx):
         nm, a, b = nms[i]
-        m_simpl, m_run, m_run_opt, m_wf = mo[4 * k: 4 * k + 4]
+        m_simpl, m_run, m_run_opt, m_wf, m_run2, m_run2_opt = mo[6 * k: 6 * k + 6]
+        if m_run.startswith("V") and m_run2.startswith("V") and m_run2 != "V proc |" and m_run != m_run2:
+            ctx.broken("spec:two-interpreters-differ", "eval gives %s, eval2 gives %s on %s" % (m_run, m_run2, progs[i]))
+        if not m_run.startswith("V"):          # outside the let-fragment: the interpreter with closures decides
+            m_run, m_run_opt = m_run2, m_run2_opt
+        sem2_defined += m_run2.startswith("V")
         sem[i] = (m_run, nm)
         ctx.count(1, key=("innerB", progs[i]), nontrivial=(a != b))
         ctx.cov["traces_validated_against_impl"] += 1
@@ -768,6 +796,15 @@ def _simplify_part(ctx, exe, dirs):
         outs[v] = _split_cases(r.stdout)
         if len(outs[v]) != len(allp):
             ctx.broken("outer-correspondence:C09:" + v, "build %s ran %d of %d programs (rc=%s): %s" % (v, len(outs[v]), len(allp), r.returncode, r.stderr[-400:]))
+    # probe: the exact-arithmetic defect of C04 (most negative fixnum divided by the bignum 2^62, fix pending in
+    # fixes/C04-quotient-min-fixnum-by-bignum.patch) also shows up as a difference between the SPEC interpreter and
+    # every build; it gets its own narrow signature
+    c04_minfix = False
+    if "nosimplify" in dirs:
+        pr = _run_file(dirs["nosimplify"], '(import (scheme base) (scheme write)) (write (list (quotient -4611686018427387904 4611686018427387904) (remainder -4611686018427387904 4611686018427387904)))', "probe")
+        c04_minfix = pr.stdout.strip() != "(-1 0)"
+        if c04_minfix:
+            ctx.note("probe: (quotient/remainder -2^62 2^62) = %s in every build, Z says (-1 0): C04's defect (fixes/C04-quotient-min-fixnum-by-bignum.patch not applied to this tree)" % pr.stdout.strip())
     pairs = [(v, base, kind) for v, base, kind in [("default", "nosimplify", "simplify"), ("customll", "default", "customll"),
                                                     ("both", "nosimplify", "customll-without-simplify")] if v in outs and base in outs]
     if "nosimplify" not in outs:
@@ -786,16 +823,21 @@ def _simplify_part(ctx, exe, dirs):
             m_run, nm = sem[i]
             val, _, outl = m_run.partition(" |")
             exp = [_show_const(c, nm) for c in outl.split()]
-            v = _show_const(val.split()[1], nm)
+            v = _show_const(val.split()[1], nm) if val.split()[1] != "proc" else None
             exp.append("RES " + v if v is not None else None)
             got = list(ref)
             if exp[-1] is None and got and got[-1].startswith("RES"):
                 exp, got = exp[:-1], got[:-1]
             if exp != got:
-                ctx.violation("sem:nosimplify-build-differs-from-spec", input=p, expected=exp, observed=ref, replay=replay,
-                              why="the unoptimised build prints something else than the SPEC interpreter (coq/C09/Simplify.v eval) defines")
+                if c04_minfix and "-4611686018427387904" in p and ("quotient" in p or "remainder" in p):
+                    ctx.violation("arith:min-fixnum-quotient-remainder-by-bignum", input=p, expected=exp, observed=ref, replay=replay,
+                                  why="all four builds agree with each other but not with Z: (quotient -2^62 2^62) is computed as 0 and the remainder as -2^62 "
+                                      "(bignum.c sexp_quotient/sexp_remainder FIX_BIG case) - the defect C04 repairs in fixes/C04-quotient-min-fixnum-by-bignum.patch")
+                else:
+                    ctx.violation("sem:nosimplify-build-differs-from-spec", input=p, expected=exp, observed=ref, replay=replay,
+                                  why="the unoptimised build prints something else than the SPEC interpreter (coq/C09/Simplify.v eval) defines")
     ctx.sample(dict(kind="outer-variants", program=allp[len(progs)], outputs={v: outs[v].get(len(progs)) for v in outs}))
-    ctx.note("programs whose meaning the SPEC interpreter defines: %d of %d" % (sum(1 for v in sem.values() if v[0].startswith("V")), len(sem)))
+    ctx.note("programs whose meaning a SPEC interpreter defines: %d of %d (eval2, with closures: %d)" % (sum(1 for v in sem.values() if v[0].startswith("V")), len(sem), sem2_defined))
     ctx.note("generator distribution (let-fragment programs): %s; rich programs: %d fixed + %s" % (g.stats, len(RICH), g2.stats))
 
 
